@@ -3,6 +3,7 @@ import json, os, sys
 import common as C
 import gen_constants
 import lane_c16
+import lane_c19
 
 QUICK_SHARDS = 4
 THOROUGH_SHARDS = 16
@@ -195,6 +196,22 @@ PROPS = {
                      "after a failing inner.set the actuator wrapper may either call or skip inner.update() (statement silent); exactly one inner.update() per wrapper update() otherwise",
                      "PID wrapper compared bit-exactly (canonical bits) with a stand-alone CommandPID wired like the wrapper (shared Time clock, two ConstantGetters, PID following the command getter); the PID law itself is C11's job",
                      "stamps |t| <= 2^40, non-decreasing with repeats; repeated stamps give inf/NaN on both sides and are compared canonically"],
+    ),
+    "C13": dict(
+        run=native, level=EXPL, technique="model-based runtime oracle (newest issued command, side-mapping table) with exhaustive small-scope enumeration of command-slot assignments and quota-driven random histories and chains; snapshot bit-identity for the differential",
+        rule="five sub-checks: assign (every assignment of {no command, distinct stamp ranks} to own and connected-external command slots x kind of the newest command, followed by 0-7 random rounds, for Invert, GearTrain via with_ratio_raw / with_ratio / new with 2-6 gears, Axle<1..3>), axle (Axle<1..=6> x each of the 2N slots as holder of the newest command x kind), random (single devices 1-8 rounds), chain (1-5 random Invert/GearTrain/Axle<2> joined by connect in random orientation, command injected at either end, devices updated in travel order, far end and every device exit checked), differential (five constructions x all 64 state-presence masks x 1-8 rounds); distinct = (device/constructor, connection pattern, first-round rank assignment, kind, issuing slot per round) / chain shape / per-round masks",
+        assumptions=["the harness is the only issuer of commands and every issued stamp is strictly larger than all earlier ones (equal stamps are outside the quantifier); the premise 'newest command readable before update' is re-confirmed before every update",
+                     "inverter/axle values compared exactly on canonical bits; gear values within 4 ulp per device crossed (a command that went /r then *r may differ in the last bit) plus an f64 product cross-check for chains",
+                     "ratios in +-[1e-2,1e2]; stamps within |t| <= 2^40; states are present at random but not judged here"],
+    ),
+    "C19": dict(
+        run=lane_c19.run, level=EXPL,
+        technique="differential offline comparison of canonical traces (f32 bits with -0==+0 and NaN canonical, i64, outcome words; never units) of one seeded workload built under seven feature configurations; in-build EWMA one-step law using each build's own powf; panic capture; ill-dimensioned operations against plain f32 arithmetic in the unchecked builds",
+        rule="200 (quick) / 20000 (thorough) seeded programs, each a pure function of (seed, program index), run through every public value type, motion profile, stream (scripted present/absent/Err(1)/Err(2) histories) and device in seven configurations: release {std, alloc+libm, alloc+micromath} x {dim_check_release, no checking} plus the default debug build; a second, ill-dimensioned program per index runs only in the three unchecked builds; E lines must be identical in all seven traces, powf-derived P lines within 8 ulp-of-magnitude between std and libm, S lines (EWMA law with the build's own powf) ok everywhere, checked-only C lines identical among the four checked builds, U lines = plain f32 arithmetic without panic or rejection; distinct = trace tag x configuration",
+        assumptions=["the trace binary itself always uses std; only rrtk is built no_std in the alloc+libm / alloc+micromath configurations",
+                     "whether checking is compiled in is read at run time from size_of::<Unit>() and must equal the configuration's cfg expression (mismatch = inconclusive)",
+                     "micromath's powf is a coarse approximation (measured up to 0.25 absolute): its powf-derived lines are never compared across configurations, only against the EWMA law inside that build",
+                     "integers kept far from overflow by construction so the debug build's overflow checks are never the observed difference"],
     ),
 }
 NOT_APPLICABLE = {}
